@@ -67,13 +67,19 @@ Definition C01_statement : Prop :=
       | _, _ => False
       end.
 
-(* Known_C01 (Model/KnownC01.v) = class 1, the file scheme is involved, + the EXACT exclusions of the proved
+(* Known_C01 (Model/KnownC01.v) = class 1, the file scheme is involved AND the input is not a "file:" R without a
+   file base inside the recogniser k_file_ok of the proved file class (the last block of this file:
+   C01_known_file_exact, C01_statement_all2), + the EXACT exclusions of the proved
    class theorems computed on the raw text: class 2 a ".." meets a drive-letter-shaped last segment of the
    path the Standard builds, class 3 non-special authority with a port <= 65535 directly followed by '\',
    class 4 non-special authority exactly ":@".  It is inhabited by the recorded findings and not trivially
    true; C01_known_classes_refuted (below) shows that each class contains a real divergence of the model
    from the Standard, C01_known_narrowed that the former broad classes (a drive-letter-shaped piece / a
-   backslash in non-special input / ":@" anywhere: known_c01_broad) are left. *)
+   backslash in non-special input / ":@" anywhere: known_c01_broad) are left.
+   `known_c01_v1` in the theorems below is the predicate BEFORE class 1 was narrowed (class 1 = the whole file
+   scheme; known_c01_v1 = 0 -> known_c01 = 0, C01_known_v1): they are the theorems as they were proved with it;
+   the theorems for the narrowed predicate `known_c01` are C01_class4_complete, C01_statement_all2,
+   C01_statement_all2_model, C01_statement_instance2 at the end of the file. *)
 Example C01_known_classes :
   known_c01 None [102;105;108;101;58;47;47;47;67;124] = 1                      (* file:///C| *)
   /\ known_c01 None [110;58;47;67;124;47;46;46] = 2                            (* n:/C|/.. *)
@@ -800,12 +806,12 @@ Qed.
    needs a drive-letter-shaped piece in the raw text, which is Known_C01 class 2 *)
 From RU Require Import Proofs.C01_EqSpKnown.
 Theorem C01_special_class_complete : forall input sch R,
-  spec_scheme (spec_clean input) = Some (sch, R) -> is_special_scheme sch = true -> known_c01 None input = 0 ->
+  spec_scheme (spec_clean input) = Some (sch, R) -> is_special_scheme sch = true -> known_c01_v1 None input = 0 ->
   in_class_special input = true.
 Proof. exact special_class_covers_known. Qed.
 Print Assumptions C01_special_class_complete.
 
-(* hence C01_statement itself, for every input with a special scheme and no base (known_c01 = 0 excludes
+(* hence C01_statement itself, for every input with a special scheme and no base (known_c01_v1 = 0 excludes
    "file"): outside Known_C01 the Standard succeeds -> the model succeeds with a `related` record (rel_api: same ten
    API strings) or answers Overflow and the Standard's href exceeds u32::MAX bytes; the Standard fails ->
    the model returns Err.  What separates this from the corresponding instance of C01_statement: the
@@ -814,13 +820,13 @@ Print Assumptions C01_special_class_complete.
    Overflow is a named outcome. *)
 Theorem C01_statement_special_nobase : forall dbg hp hpo hd shp shs input sch R,
   usv_list input -> spec_scheme (spec_clean input) = Some (sch, R) -> is_special_scheme sch = true ->
-  known_c01 None input = 0 ->
+  known_c01_v1 None input = 0 ->
   host_agree_sp hp hd shp shs (class_host_text_s input) ->
   agree_rel_strict dbg shs (parse_url dbg hp hpo hd None None input) (spec_basic_url_parse shp input None).
 Proof. exact statement_special_nobase. Qed.
 Check C01_statement_special_nobase : forall dbg hp hpo hd shp shs input sch R,
   usv_list input -> spec_scheme (spec_clean input) = Some (sch, R) -> is_special_scheme sch = true ->
-  known_c01 None input = 0 ->
+  known_c01_v1 None input = 0 ->
   host_agree_sp hp hd shp shs (class_host_text_s input) ->
   match spec_basic_url_parse shp input None with
   | BDone su => (parse_url dbg hp hpo hd None None input = PErr Overflow /\ U32_MAX_P < nlen (get_href shs su))
@@ -1024,14 +1030,14 @@ Print Assumptions C01_eq_noscheme_nobase.
    backslashes the Standard's non-special path state is its special one, so the raw-text lemma of
    C01_special_class_complete applies) *)
 Theorem C01_nonspecial_classes_complete : forall input sch R,
-  spec_scheme (spec_clean input) = Some (sch, R) -> is_special_scheme sch = false -> known_c01 None input = 0 ->
+  spec_scheme (spec_clean input) = Some (sch, R) -> is_special_scheme sch = false -> known_c01_v1 None input = 0 ->
   in_class_opaque input || in_class_pathonly input || in_class_authority input = true.
 Proof. exact nonspecial_nobase_covers. Qed.
 Print Assumptions C01_nonspecial_classes_complete.
 
 (* hence, without a base, the proved classes contain EVERY input outside Known_C01 *)
 Theorem C01_class3_complete_nobase : forall input,
-  known_c01 None input = 0 -> in_proved_class3 None input = true.
+  known_c01_v1 None input = 0 -> in_proved_class3 None input = true.
 Proof. exact nobase_covers. Qed.
 Print Assumptions C01_class3_complete_nobase.
 
@@ -1041,7 +1047,7 @@ Print Assumptions C01_class3_complete_nobase.
    reads the base path) *)
 Theorem C01_class3_complete_nonspecial_base : forall dbg shs b sb input,
   good_base dbg shs b sb -> is_special_scheme (su_scheme sb) = false ->
-  spec_scheme (spec_clean input) = None -> known_c01 (Some b) input = 0 ->
+  spec_scheme (spec_clean input) = None -> known_c01_v1 (Some b) input = 0 ->
   in_proved_class3 (Some sb) input = true.
 Proof. exact nonspecial_base_covers. Qed.
 Print Assumptions C01_class3_complete_nonspecial_base.
@@ -1053,19 +1059,19 @@ Print Assumptions C01_class3_complete_nonspecial_base.
    host_hyp3 (next theorem: discharged for the host model relative to IdnaOK), the ten strings are read
    through api_of_model (inside `related`), Overflow is a named outcome, usv_list input (Rust &str). *)
 Theorem C01_statement_nobase : forall dbg hp hpo hd shp shs input,
-  usv_list input -> known_c01 None input = 0 -> host_hyp3 hp hpo hd shp shs None input ->
+  usv_list input -> known_c01_v1 None input = 0 -> host_hyp3 hp hpo hd shp shs None input ->
   agree_good dbg shs (parse_url dbg hp hpo hd None None input) (spec_basic_url_parse shp input None).
 Proof. exact statement_nobase. Qed.
 Print Assumptions C01_statement_nobase.
 
 Theorem C01_statement_nobase_model : forall dbg idna, IdnaOK idna -> forall input,
-  usv_list input -> known_c01 None input = 0 ->
+  usv_list input -> known_c01_v1 None input = 0 ->
   agree_good dbg spec_host_serializer
     (parse_url dbg (host_parse idna) host_parse_opaque host_display None None input)
     (spec_basic_url_parse (spec_host_parser idna) input None).
 Proof. exact statement_nobase_model. Qed.
 Check C01_statement_nobase_model : forall dbg idna, IdnaOK idna -> forall input,
-  usv_list input -> known_c01 None input = 0 ->
+  usv_list input -> known_c01_v1 None input = 0 ->
   let m := parse_url dbg (host_parse idna) host_parse_opaque host_display None None input in
   match spec_basic_url_parse (spec_host_parser idna) input None with
   | BDone su => spec_base_ok su = true
@@ -1079,7 +1085,7 @@ Print Assumptions C01_statement_nobase_model.
 (* C01_statement for a good_base pair with a non-special scheme and a scheme-less reference *)
 Theorem C01_statement_nonspecial_base : forall dbg hp hpo hd shp shs b sb input,
   usv_list input -> good_base dbg shs b sb -> is_special_scheme (su_scheme sb) = false ->
-  spec_scheme (spec_clean input) = None -> known_c01 (Some b) input = 0 ->
+  spec_scheme (spec_clean input) = None -> known_c01_v1 (Some b) input = 0 ->
   host_hyp3 hp hpo hd shp shs (Some sb) input ->
   agree_good dbg shs (parse_url dbg hp hpo hd None (Some b) input) (spec_basic_url_parse shp input (Some sb)).
 Proof. exact statement_nonspecial_base. Qed.
@@ -1087,7 +1093,7 @@ Print Assumptions C01_statement_nonspecial_base.
 
 Theorem C01_statement_nonspecial_base_model : forall dbg idna, IdnaOK idna -> forall b sb input,
   usv_list input -> good_base dbg spec_host_serializer b sb -> is_special_scheme (su_scheme sb) = false ->
-  spec_scheme (spec_clean input) = None -> known_c01 (Some b) input = 0 ->
+  spec_scheme (spec_clean input) = None -> known_c01_v1 (Some b) input = 0 ->
   agree_good dbg spec_host_serializer
     (parse_url dbg (host_parse idna) host_parse_opaque host_display None (Some b) input)
     (spec_basic_url_parse (spec_host_parser idna) input (Some sb)).
@@ -1105,11 +1111,11 @@ Example C01_statement_nobase_nonvacuous :
   let i1 := [32; 78; 58; 47; 47; 117; 64; 72; 46; 120; 58; 48; 56; 48; 47; 97; 47; 98; 47; 99; 63; 113] in
   let i2 := [46; 46; 47; 100; 47; 46; 47; 101; 35; 102] in
   let i4 := [104; 84; 84; 112; 58; 92; 92; 101; 120; 97; 109; 112; 108; 101; 46; 99; 111; 109; 58; 56; 48; 47; 120; 47; 46; 46; 47; 121] in
-  known_c01 None i1 = 0 /\ known_c01 None i4 = 0 /\ known_c01 None [120] = 0
+  known_c01_v1 None i1 = 0 /\ known_c01_v1 None i4 = 0 /\ known_c01_v1 None [120] = 0
   /\ in_class_noscheme_nobase [120] = true
   /\ match P None [120], spec_basic_url_parse shp [120] None with PErr _, BFailure _ => True | _, _ => False end
   /\ match P None i1, spec_basic_url_parse shp i1 None with
-     | POk u1, BDone su1 => known_c01 (Some u1) i2 = 0 /\ is_special_scheme (su_scheme su1) = false
+     | POk u1, BDone su1 => known_c01_v1 (Some u1) i2 = 0 /\ is_special_scheme (su_scheme su1) = false
                             /\ spec_scheme (spec_clean i2) = None
      | _, _ => False
      end.
@@ -1148,7 +1154,7 @@ Theorem C01_class3_complete_own_scheme : forall sb b input sch R,
   b_scheme b = su_scheme sb ->                    (* the two records carry the same scheme (part of `related`) *)
   spec_scheme (spec_clean input) = Some (sch, R) ->
   is_special_scheme sch = false \/ list_eqb (su_scheme sb) sch = false ->
-  known_c01 (Some b) input = 0 -> in_proved_class3 (Some sb) input = true.
+  known_c01_v1 (Some b) input = 0 -> in_proved_class3 (Some sb) input = true.
 Proof. exact own_scheme_base_covers. Qed.
 Print Assumptions C01_class3_complete_own_scheme.
 
@@ -1156,7 +1162,7 @@ Print Assumptions C01_class3_complete_own_scheme.
 Theorem C01_statement_own_scheme_base : forall dbg hp hpo hd shp shs b sb input sch R,
   usv_list input -> good_base dbg shs b sb -> spec_scheme (spec_clean input) = Some (sch, R) ->
   is_special_scheme sch = false \/ list_eqb (su_scheme sb) sch = false ->
-  known_c01 (Some b) input = 0 ->
+  known_c01_v1 (Some b) input = 0 ->
   host_hyp3 hp hpo hd shp shs (Some sb) input ->
   agree_good dbg shs (parse_url dbg hp hpo hd None (Some b) input) (spec_basic_url_parse shp input (Some sb)).
 Proof. exact statement_own_scheme_base. Qed.
@@ -1165,7 +1171,7 @@ Print Assumptions C01_statement_own_scheme_base.
 Theorem C01_statement_own_scheme_base_model : forall dbg idna, IdnaOK idna -> forall b sb input sch R,
   usv_list input -> good_base dbg spec_host_serializer b sb -> spec_scheme (spec_clean input) = Some (sch, R) ->
   is_special_scheme sch = false \/ list_eqb (su_scheme sb) sch = false ->
-  known_c01 (Some b) input = 0 ->
+  known_c01_v1 (Some b) input = 0 ->
   agree_good dbg spec_host_serializer
     (parse_url dbg (host_parse idna) host_parse_opaque host_display None (Some b) input)
     (spec_basic_url_parse (spec_host_parser idna) input (Some sb)).
@@ -1190,7 +1196,7 @@ Example C01_own_scheme_nonvacuous :
   | POk u0, BDone su0 =>
       in_proved_class3 (Some su0) i1 = true /\ in_proved_class3 (Some su0) i2 = true
       /\ in_proved_class3 (Some su0) i3 = true /\ in_class_abs_base su0 i4 = false
-      /\ known_c01 (Some u0) i1 = 0 /\ known_c01 (Some u0) i2 = 0 /\ known_c01 (Some u0) i3 = 0
+      /\ known_c01_v1 (Some u0) i1 = 0 /\ known_c01_v1 (Some u0) i2 = 0 /\ known_c01_v1 (Some u0) i3 = 0
       /\ class_host_query (Some su0) i1 = Some (false, [104; 46; 120])
       /\ class_host_query (Some su0) i2 = Some (true, [72])
       /\ match P (Some u0) i1, S (Some su0) i1 with
@@ -1253,14 +1259,14 @@ Print Assumptions C01_eq_rel_path_s.
    ":@" need no exclusion for special schemes) *)
 Theorem C01_class3_complete_special_base : forall dbg shs b sb input,
   good_base dbg shs b sb -> sp_base_ok sb = true ->
-  spec_scheme (spec_clean input) = None -> known_c01 (Some b) input = 0 ->
+  spec_scheme (spec_clean input) = None -> known_c01_v1 (Some b) input = 0 ->
   in_proved_class3 (Some sb) input = true.
 Proof. exact special_base_covers. Qed.
 Print Assumptions C01_class3_complete_special_base.
 
 Theorem C01_statement_special_base : forall dbg hp hpo hd shp shs b sb input,
   usv_list input -> good_base dbg shs b sb -> sp_base_ok sb = true ->
-  spec_scheme (spec_clean input) = None -> known_c01 (Some b) input = 0 ->
+  spec_scheme (spec_clean input) = None -> known_c01_v1 (Some b) input = 0 ->
   host_hyp3 hp hpo hd shp shs (Some sb) input ->
   agree_good dbg shs (parse_url dbg hp hpo hd None (Some b) input) (spec_basic_url_parse shp input (Some sb)).
 Proof. exact statement_special_base. Qed.
@@ -1268,7 +1274,7 @@ Print Assumptions C01_statement_special_base.
 
 Theorem C01_statement_special_base_model : forall dbg idna, IdnaOK idna -> forall b sb input,
   usv_list input -> good_base dbg spec_host_serializer b sb -> sp_base_ok sb = true ->
-  spec_scheme (spec_clean input) = None -> known_c01 (Some b) input = 0 ->
+  spec_scheme (spec_clean input) = None -> known_c01_v1 (Some b) input = 0 ->
   agree_good dbg spec_host_serializer
     (parse_url dbg (host_parse idna) host_parse_opaque host_display None (Some b) input)
     (spec_basic_url_parse (spec_host_parser idna) input (Some sb)).
@@ -1295,7 +1301,7 @@ Example C01_special_base_nonvacuous :
   | POk u0, BDone su0 =>
       sp_base_ok su0 = true
       /\ in_proved_class3 (Some su0) i1 = true /\ in_proved_class3 (Some su0) i2 = true /\ in_proved_class3 (Some su0) i3 = true
-      /\ known_c01 (Some u0) i1 = 0 /\ known_c01 (Some u0) i2 = 0 /\ known_c01 (Some u0) i3 = 0
+      /\ known_c01_v1 (Some u0) i1 = 0 /\ known_c01_v1 (Some u0) i2 = 0 /\ known_c01_v1 (Some u0) i3 = 0
       /\ class_host_query (Some su0) i3 = Some (false, [104; 46; 120])
       /\ match P (Some u0) i1, S (Some su0) i1 with
          | POk u, BDone su => q_href u = [104; 116; 116; 112; 58; 47; 47; 101; 120; 97; 109; 112; 108; 101; 46; 99; 111; 109; 47; 121]
@@ -1313,7 +1319,7 @@ Example C01_special_base_nonvacuous :
   end
   /\ match P None j0, S None j0 with
      | POk v0, BDone sv0 =>
-         known_c01 (Some v0) j1 = 2 /\ in_proved_class3 (Some sv0) j1 = false
+         known_c01_v1 (Some v0) j1 = 2 /\ in_proved_class3 (Some sv0) j1 = false
          /\ match P (Some v0) j1, S (Some sv0) j1 with
             | POk u, BDone su => q_href u = [104; 116; 116; 112; 58; 47; 47; 101; 120; 97; 109; 112; 108; 101; 46; 99; 111; 109; 47; 67; 124; 47; 121]
                                  /\ get_href spec_host_serializer su = [104; 116; 116; 112; 58; 47; 47; 101; 120; 97; 109; 112; 108; 101; 46; 99; 111; 109; 47; 121]
@@ -1376,14 +1382,14 @@ From RU Require Import Proofs.C01_EqShape.
    Against such a base EVERYTHING outside Known_C01 is in in_proved_class3: *)
 Theorem C01_class3_complete_base : forall dbg shs b sb input,
   good_base dbg shs b sb -> base_shape_ok sb = true ->
-  known_c01 (Some b) input = 0 -> in_proved_class3 (Some sb) input = true.
+  known_c01_v1 (Some b) input = 0 -> in_proved_class3 (Some sb) input = true.
 Proof. exact base_covers. Qed.
 Print Assumptions C01_class3_complete_base.
 
 (* C01_statement with a base (with C01_statement_nobase: all of C01_statement up to the named differences) *)
 Theorem C01_statement_base : forall dbg hp hpo hd shp shs b sb input,
   usv_list input -> good_base dbg shs b sb -> base_shape_ok sb = true ->
-  known_c01 (Some b) input = 0 ->
+  known_c01_v1 (Some b) input = 0 ->
   host_hyp3 hp hpo hd shp shs (Some sb) input ->
   agree_good dbg shs (parse_url dbg hp hpo hd None (Some b) input) (spec_basic_url_parse shp input (Some sb)).
 Proof. exact statement_base. Qed.
@@ -1391,14 +1397,14 @@ Print Assumptions C01_statement_base.
 
 Theorem C01_statement_base_model : forall dbg idna, IdnaOK idna -> forall b sb input,
   usv_list input -> good_base dbg spec_host_serializer b sb -> base_shape_ok sb = true ->
-  known_c01 (Some b) input = 0 ->
+  known_c01_v1 (Some b) input = 0 ->
   agree_good dbg spec_host_serializer
     (parse_url dbg (host_parse idna) host_parse_opaque host_display None (Some b) input)
     (spec_basic_url_parse (spec_host_parser idna) input (Some sb)).
 Proof. exact statement_base_model. Qed.
 Check C01_statement_base_model : forall dbg idna, IdnaOK idna -> forall b sb input,
   usv_list input -> (related dbg spec_host_serializer b sb /\ spec_base_ok sb = true) -> base_shape_ok sb = true ->
-  known_c01 (Some b) input = 0 ->
+  known_c01_v1 (Some b) input = 0 ->
   let m := parse_url dbg (host_parse idna) host_parse_opaque host_display None (Some b) input in
   match spec_basic_url_parse (spec_host_parser idna) input (Some sb) with
   | BDone su => spec_base_ok su = true
@@ -1429,7 +1435,7 @@ Example C01_same_scheme_nonvacuous :
       /\ in_proved_class3 (Some su0) i1 = true /\ in_proved_class3 (Some su0) i2 = true
       /\ in_proved_class3 (Some su0) i3 = true /\ in_proved_class3 (Some su0) i4 = true
       /\ in_class_same_bare su0 i1 = false /\ in_class_same_bare su0 i5 = true /\ in_proved_class3 (Some su0) i5 = true
-      /\ known_c01 (Some u0) i1 = 0 /\ known_c01 (Some u0) i2 = 0 /\ known_c01 (Some u0) i3 = 0 /\ known_c01 (Some u0) i4 = 0
+      /\ known_c01_v1 (Some u0) i1 = 0 /\ known_c01_v1 (Some u0) i2 = 0 /\ known_c01_v1 (Some u0) i3 = 0 /\ known_c01_v1 (Some u0) i4 = 0
       /\ match P (Some u0) i1, S (Some su0) i1 with
          | POk u, BDone su => q_href u = [104; 116; 116; 112; 58; 47; 47; 101; 120; 97; 109; 112; 108; 101; 46; 99; 111; 109; 47; 97; 47; 98; 47; 121]
                               /\ api_of_model true u = Some (spec_api_list spec_host_serializer su)
@@ -1474,7 +1480,7 @@ Print Assumptions C01_class3_result_shape.
    everything reachable from parse results by resolving references).  Host functions abstract with the
    one-string hypothesis host_hyp3. *)
 Theorem C01_statement_all : forall dbg hp hpo hd shp shs input base sbase,
-  usv_list input -> full_rel dbg shs base sbase -> known_c01 base input = 0 ->
+  usv_list input -> full_rel dbg shs base sbase -> known_c01_v1 base input = 0 ->
   host_hyp3 hp hpo hd shp shs sbase input ->
   agree_good dbg shs (parse_url dbg hp hpo hd None base input) (spec_basic_url_parse shp input sbase)
   /\ (forall su u, spec_basic_url_parse shp input sbase = BDone su -> parse_url dbg hp hpo hd None base input = POk u ->
@@ -1485,7 +1491,7 @@ Print Assumptions C01_statement_all.
 (* the same for the parser model with the host model plugged in against the Standard's parser with the
    Standard's host parser: relative to IdnaOK idna ONLY *)
 Theorem C01_statement_all_model : forall dbg idna, IdnaOK idna -> forall input base sbase,
-  usv_list input -> full_rel dbg spec_host_serializer base sbase -> known_c01 base input = 0 ->
+  usv_list input -> full_rel dbg spec_host_serializer base sbase -> known_c01_v1 base input = 0 ->
   agree_good dbg spec_host_serializer
     (parse_url dbg (host_parse idna) host_parse_opaque host_display None base input)
     (spec_basic_url_parse (spec_host_parser idna) input sbase)
@@ -1500,7 +1506,7 @@ Check C01_statement_all_model : forall dbg idna, IdnaOK idna -> forall input bas
   | Some b, Some sb => (related dbg spec_host_serializer b sb /\ spec_base_ok sb = true) /\ base_shape_ok sb = true
   | _, _ => False
   end ->
-  known_c01 base input = 0 ->
+  known_c01_v1 base input = 0 ->
   let m := parse_url dbg (host_parse idna) host_parse_opaque host_display None base input in
   match spec_basic_url_parse (spec_host_parser idna) input sbase with
   | BDone su => spec_base_ok su = true
@@ -1518,13 +1524,13 @@ Print Assumptions C01_statement_all_model.
    api_of_model read as a total function; the one additional arm is the model's ParseError::Overflow against a
    Standard result whose href exceeds u32::MAX bytes *)
 Theorem C01_statement_instance : forall dbg idna, IdnaOK idna -> forall input base sbase,
-  usv_list input -> full_rel dbg spec_host_serializer base sbase -> known_c01 base input = 0 ->
+  usv_list input -> full_rel dbg spec_host_serializer base sbase -> known_c01_v1 base input = 0 ->
   statement_shape dbg spec_host_serializer
     (parse_url dbg (host_parse idna) host_parse_opaque host_display None base input)
     (spec_basic_url_parse (spec_host_parser idna) input sbase).
 Proof. exact statement_instance. Qed.
 Check C01_statement_instance : forall dbg idna, IdnaOK idna -> forall input base sbase,
-  usv_list input -> full_rel dbg spec_host_serializer base sbase -> known_c01 base input = 0 ->
+  usv_list input -> full_rel dbg spec_host_serializer base sbase -> known_c01_v1 base input = 0 ->
   match parse_url dbg (host_parse idna) host_parse_opaque host_display None base input,
         spec_basic_url_parse (spec_host_parser idna) input sbase with
   | POk u, BDone su => api_total dbg u = spec_api_list spec_host_serializer su
@@ -1569,16 +1575,16 @@ Print Assumptions C01_known_exact_special.
    C01_statement is False): file:///C| (file:///C| vs file:///C:), n:/C|/.. (n:/C|/ vs n:/),
    n://x.y:8\ (accepted vs failure), blob://:@/ (accepted vs failure) - findings F-C01-11, 9, 8, 12 *)
 Theorem C01_known_classes_refuted :
-  (known_c01 None wit_k1 = 1 /\ sides_differ None None wit_k1)
-  /\ (known_c01 None wit_k2 = 2 /\ sides_differ None None wit_k2)
-  /\ (known_c01 None wit_k3 = 3 /\ sides_differ None None wit_k3)
-  /\ (known_c01 None wit_k4 = 4 /\ sides_differ None None wit_k4).
+  (known_c01_v1 None wit_k1 = 1 /\ sides_differ None None wit_k1)
+  /\ (known_c01_v1 None wit_k2 = 2 /\ sides_differ None None wit_k2)
+  /\ (known_c01_v1 None wit_k3 = 3 /\ sides_differ None None wit_k3)
+  /\ (known_c01_v1 None wit_k4 = 4 /\ sides_differ None None wit_k4).
 Proof. exact known_classes_refuted. Qed.
 Check C01_known_classes_refuted :
-  (known_c01 None wit_k1 = 1 /\ sides_differ None None wit_k1)
-  /\ (known_c01 None wit_k2 = 2 /\ sides_differ None None wit_k2)
-  /\ (known_c01 None wit_k3 = 3 /\ sides_differ None None wit_k3)
-  /\ (known_c01 None wit_k4 = 4 /\ sides_differ None None wit_k4).
+  (known_c01_v1 None wit_k1 = 1 /\ sides_differ None None wit_k1)
+  /\ (known_c01_v1 None wit_k2 = 2 /\ sides_differ None None wit_k2)
+  /\ (known_c01_v1 None wit_k3 = 3 /\ sides_differ None None wit_k3)
+  /\ (known_c01_v1 None wit_k4 = 4 /\ sides_differ None None wit_k4).
 (* sides_differ base sbase input := the match of C01_statement (statement_shape) is False for the host model
    over the identity oracle *)
 Check (eq_refl : sides_differ = fun base sbase input =>
@@ -1596,7 +1602,7 @@ Print Assumptions C01_known_classes_refuted.
 Theorem C01_known_class2_base_refuted :
   match parse_url true (host_parse id_idna) host_parse_opaque host_display None None wit_k2_base,
         spec_basic_url_parse (spec_host_parser id_idna) wit_k2_base None with
-  | POk b, BDone sb => known_c01 (Some b) wit_k2_ref = 2 /\ known_c01 None wit_k2_base = 0
+  | POk b, BDone sb => known_c01_v1 (Some b) wit_k2_ref = 2 /\ known_c01_v1 None wit_k2_base = 0
                        /\ sides_differ (Some b) (Some sb) wit_k2_ref
   | _, _ => False
   end.
@@ -1606,10 +1612,10 @@ Print Assumptions C01_known_class2_base_refuted.
 (* the exact classes leave the former broad ones (known_c01_broad): http://u:@h/, n://u:@h/:@,
    n://h/C:/x/.., n://h:8/a\b?\ are now covered by C01_statement_all *)
 Theorem C01_known_narrowed :
-  (known_c01_broad None nar_1 = 4 /\ known_c01 None nar_1 = 0)
-  /\ (known_c01_broad None nar_2 = 4 /\ known_c01 None nar_2 = 0)
-  /\ (known_c01_broad None nar_3 = 2 /\ known_c01 None nar_3 = 0)
-  /\ (known_c01_broad None nar_4 = 3 /\ known_c01 None nar_4 = 0).
+  (known_c01_broad None nar_1 = 4 /\ known_c01_v1 None nar_1 = 0)
+  /\ (known_c01_broad None nar_2 = 4 /\ known_c01_v1 None nar_2 = 0)
+  /\ (known_c01_broad None nar_3 = 2 /\ known_c01_v1 None nar_3 = 0)
+  /\ (known_c01_broad None nar_4 = 3 /\ known_c01_v1 None nar_4 = 0).
 Proof. exact known_narrowed. Qed.
 Print Assumptions C01_known_narrowed.
 
@@ -1630,8 +1636,8 @@ Print Assumptions C01_class3_complete_bare_ref.
    in class 1 *)
 Theorem C01_known_file_bare :
   match parse_url true (host_parse id_idna) host_parse_opaque host_display None None file_base_text with
-  | POk b => known_c01 (Some b) [35; 102] = 0 /\ known_c01 (Some b) [63; 113] = 0 /\ known_c01 (Some b) [] = 0
-             /\ known_c01 (Some b) [32; 9] = 0 /\ known_c01 (Some b) [120] = 1 /\ known_c01 (Some b) [47; 120] = 1
+  | POk b => known_c01_v1 (Some b) [35; 102] = 0 /\ known_c01_v1 (Some b) [63; 113] = 0 /\ known_c01_v1 (Some b) [] = 0
+             /\ known_c01_v1 (Some b) [32; 9] = 0 /\ known_c01_v1 (Some b) [120] = 1 /\ known_c01_v1 (Some b) [47; 120] = 1
   | _ => False
   end.
 Proof. exact known_file_bare. Qed.
@@ -1809,7 +1815,7 @@ Example C01_eq_file_nonvacuous :
   let idna := ex_idna_clean in
   let P i := parse_url true (host_parse idna) host_parse_opaque host_display None None i in
   let S i := spec_basic_url_parse (spec_host_parser idna) i None in
-  let ok i href := in_class_file i = true /\ known_c01 None i = 1
+  let ok i href := in_class_file i = true /\ known_c01_v1 None i = 1
                    /\ match P i, S i with
                       | POk u, BDone su => q_href u = href /\ api_of_model true u = Some (spec_api_list spec_host_serializer su)
                       | _, _ => False end in
@@ -1827,3 +1833,331 @@ Example C01_eq_file_nonvacuous :
   /\ bad [102;105;108;101;58;47;47;47;67;124;47;120] [102;105;108;101;58;47;47;47;67;124;47;120] [102;105;108;101;58;47;47;47;67;58;47;120]
   /\ bad [102;105;108;101;58;47;97;47;67;58;47;46;46;47;120] [102;105;108;101;58;47;47;47;97;47;67;58;47;120] [102;105;108;101;58;47;47;47;97;47;120].
 Proof. vm_compute. repeat split; try reflexivity; discriminate. Qed.
+
+(* ====================================================================================== *)
+(* Class 1 of Known_C01 narrowed by the proved file class (task c01file3)                   *)
+(* ====================================================================================== *)
+From RU Require Import Proofs.C01_EqFileCover.
+
+(* the recogniser Known_C01 uses for the file scheme - the Standard's file path state with both drive-letter
+   quirks run on RAW segments (Model/KnownC01.v k_file_ok; its Rust twin is harness/src/known01.rs k_file_ok,
+   the two are compared on every differential case) - implies the recogniser of the proved file class, which
+   runs on the Standard's own state (percent-encoded buffer and segment list): the encoder of the path set is
+   invisible to the dot-segment and drive-letter tests and commutes with the normalization of a first drive letter *)
+Theorem C01_known_file_exact : forall R, k_file_ok R = true -> file_class_ok R = true.
+Proof. exact k_file_ok_class. Qed.
+Check C01_known_file_exact : forall R, k_file_ok R = true -> file_class_ok R = true.
+Print Assumptions C01_known_file_exact.
+
+(* the raw run IS the Standard's run: the segment list of spath_f on the encoded state is the encoding of the raw list *)
+Theorem C01_known_file_run : forall t P B,
+  fst (spath_f t (map (upe in_path_set) P) (upe in_path_set B)) = map (upe in_path_set) (kf_path t P B).
+Proof. exact spath_U. Qed.
+Print Assumptions C01_known_file_run.
+
+(* the narrowed predicate against the former one: nothing that was outside Known_C01 is inside now, the classes
+   2-4 are the same, and an input that left class 1 is "file:" R in the proved file class without a file base *)
+Theorem C01_known_v1 : forall base input,
+  (known_c01_v1 base input = 0 -> known_c01 base input = 0)
+  /\ (known_c01 base input <> 0 -> known_c01 base input = known_c01_v1 base input)
+  /\ (known_c01 base input = 0 -> known_c01_v1 base input = 0 \/ k_file_narrow base input = true)
+  /\ (k_file_narrow base input = true -> in_class_file input = true)
+  /\ (forall sbase, base_sch_rel base sbase -> k_file_narrow base input = true -> no_file_base sbase = true).
+Proof.
+  intros base input. split; [exact (known_v1_zero base input)|]. split; [exact (known_class_same base input)|].
+  split; [exact (known_split base input)|]. split; [exact (narrow_in_class base input)|].
+  intros sbase. exact (narrow_no_file_base base sbase input).
+Qed.
+Print Assumptions C01_known_v1.
+
+(* coverage: for base = None or a full_base pair, EVERY input outside the narrowed Known_C01 is in
+   in_proved_class4 = in_proved_class3 or ("file:" R in in_class_file, no file base) *)
+Theorem C01_class4_complete : forall dbg shs input base sbase,
+  full_rel dbg shs base sbase -> known_c01 base input = 0 -> in_proved_class4 sbase input = true.
+Proof. exact all_covers4. Qed.
+Check C01_class4_complete : forall dbg shs input base sbase,
+  full_rel dbg shs base sbase -> known_c01 base input = 0 ->
+  in_proved_class3 sbase input || (no_file_base sbase && in_class_file input) = true.
+Print Assumptions C01_class4_complete.
+
+(* C01_statement for the narrowed Known_C01, one theorem (supersedes C01_statement_all, which is the same
+   statement for known_c01_v1): base = None or a full_base pair, EVERY scalar-value input with
+   known_c01 base input = 0 - now including "file:" inputs of the proved file class without a file base -
+   agree_good, and a successful pair of results is a full_base pair again.  Host functions abstract:
+   host_hyp4 = host_hyp3 (the one host string of the classes of in_proved_class3) and, for a "file:" input of the
+   file class, host_agree_file on the text between "//" and the path. *)
+Theorem C01_statement_all2 : forall dbg hp hpo hd shp shs input base sbase,
+  usv_list input -> full_rel dbg shs base sbase -> known_c01 base input = 0 ->
+  host_hyp4 hp hpo hd shp shs sbase input ->
+  agree_good dbg shs (parse_url dbg hp hpo hd None base input) (spec_basic_url_parse shp input sbase)
+  /\ (forall su u, spec_basic_url_parse shp input sbase = BDone su -> parse_url dbg hp hpo hd None base input = POk u ->
+        full_base dbg shs u su).
+Proof. exact statement_all4. Qed.
+Check C01_statement_all2 : forall dbg hp hpo hd shp shs input base sbase,
+  usv_list input -> full_rel dbg shs base sbase -> known_c01 base input = 0 ->
+  (host_hyp3 hp hpo hd shp shs sbase input
+   /\ (no_file_base sbase && in_class_file input = true -> host_agree_file hp hd shp shs (class_host_text_f input))) ->
+  agree_good dbg shs (parse_url dbg hp hpo hd None base input) (spec_basic_url_parse shp input sbase)
+  /\ (forall su u, spec_basic_url_parse shp input sbase = BDone su -> parse_url dbg hp hpo hd None base input = POk u ->
+        full_base dbg shs u su).
+Print Assumptions C01_statement_all2.
+
+(* the same for the parser model with the host model plugged in against the Standard's parser with the
+   Standard's host parser: relative to IdnaOK idna ONLY *)
+Theorem C01_statement_all2_model : forall dbg idna, IdnaOK idna -> forall input base sbase,
+  usv_list input -> full_rel dbg spec_host_serializer base sbase -> known_c01 base input = 0 ->
+  agree_good dbg spec_host_serializer
+    (parse_url dbg (host_parse idna) host_parse_opaque host_display None base input)
+    (spec_basic_url_parse (spec_host_parser idna) input sbase)
+  /\ (forall su u, spec_basic_url_parse (spec_host_parser idna) input sbase = BDone su ->
+        parse_url dbg (host_parse idna) host_parse_opaque host_display None base input = POk u ->
+        full_base dbg spec_host_serializer u su).
+Proof. exact statement_all4_model. Qed.
+Check C01_statement_all2_model : forall dbg idna, IdnaOK idna -> forall input base sbase,
+  usv_list input ->
+  match base, sbase with
+  | None, None => True
+  | Some b, Some sb => (related dbg spec_host_serializer b sb /\ spec_base_ok sb = true) /\ base_shape_ok sb = true
+  | _, _ => False
+  end ->
+  known_c01 base input = 0 ->
+  let m := parse_url dbg (host_parse idna) host_parse_opaque host_display None base input in
+  match spec_basic_url_parse (spec_host_parser idna) input sbase with
+  | BDone su => spec_base_ok su = true
+                /\ ((m = PErr Overflow /\ U32_MAX_P < nlen (get_href spec_host_serializer su))
+                    \/ exists u, m = POk u /\ related dbg spec_host_serializer u su)
+  | BFailure _ => exists e, m = PErr e
+  | BOutOfFuel => False
+  end
+  /\ (forall su u, spec_basic_url_parse (spec_host_parser idna) input sbase = BDone su -> m = POk u ->
+        (related dbg spec_host_serializer u su /\ spec_base_ok su = true) /\ base_shape_ok su = true).
+Print Assumptions C01_statement_all2_model.
+
+(* with a UTF-8 encoding override *)
+Theorem C01_statement_all2_model_utf8 : forall dbg idna, IdnaOK idna -> forall input base sbase,
+  usv_list input -> full_rel dbg spec_host_serializer base sbase -> known_c01 base input = 0 ->
+  agree_good dbg spec_host_serializer
+    (parse_url dbg (host_parse idna) host_parse_opaque host_display (Some utf8_encode) base input)
+    (spec_basic_url_parse (spec_host_parser idna) input sbase).
+Proof. exact statement_all4_model_utf8. Qed.
+Print Assumptions C01_statement_all2_model_utf8.
+
+(* in the shape of C01_statement (see C01_statement_instance) *)
+Theorem C01_statement_instance2 : forall dbg idna, IdnaOK idna -> forall input base sbase,
+  usv_list input -> full_rel dbg spec_host_serializer base sbase -> known_c01 base input = 0 ->
+  statement_shape dbg spec_host_serializer
+    (parse_url dbg (host_parse idna) host_parse_opaque host_display None base input)
+    (spec_basic_url_parse (spec_host_parser idna) input sbase).
+Proof. exact statement_instance4. Qed.
+Check C01_statement_instance2 : forall dbg idna, IdnaOK idna -> forall input base sbase,
+  usv_list input -> full_rel dbg spec_host_serializer base sbase -> known_c01 base input = 0 ->
+  match parse_url dbg (host_parse idna) host_parse_opaque host_display None base input,
+        spec_basic_url_parse (spec_host_parser idna) input sbase with
+  | POk u, BDone su => api_total dbg u = spec_api_list spec_host_serializer su
+  | PErr Overflow, BDone su => U32_MAX_P < nlen (get_href spec_host_serializer su)
+  | PErr _, BFailure _ => True
+  | _, _ => False
+  end.
+Print Assumptions C01_statement_instance2.
+
+(* what left class 1 and what stays (vm_compute).  Left (known_c01_v1 = 1, known_c01 = 0; the sides agree by the theorem):
+   file:///C:/a/../b, file://localhost/x, file://h.x/a/./b?q#f, fIle:<TAB>\c|/x, file: .  Stay in class 1 (the sides
+   differ, C01_eq_file_nonvacuous): file:////foo (F-C01-3), file://h.x/C:/ (F-C01-1), file:///C|/x (F-C01-11),
+   file:/a/C:/../x (F-C01-5), file:///C| ; the witnesses of classes 2-4 keep their class. *)
+Theorem C01_known_file_narrowed :
+  (known_c01_v1 None fnar_1 = 1 /\ known_c01 None fnar_1 = 0)
+  /\ (known_c01_v1 None fnar_2 = 1 /\ known_c01 None fnar_2 = 0)
+  /\ (known_c01_v1 None fnar_3 = 1 /\ known_c01 None fnar_3 = 0)
+  /\ (known_c01_v1 None fnar_4 = 1 /\ known_c01 None fnar_4 = 0)
+  /\ (known_c01_v1 None fnar_5 = 1 /\ known_c01 None fnar_5 = 0)
+  /\ known_c01 None fstay_1 = 1 /\ known_c01 None fstay_2 = 1 /\ known_c01 None fstay_3 = 1 /\ known_c01 None fstay_4 = 1
+  /\ known_c01 None wit_k1 = 1 /\ known_c01 None wit_k2 = 2 /\ known_c01 None wit_k3 = 3 /\ known_c01 None wit_k4 = 4.
+Proof. exact known_file_narrowed. Qed.
+Print Assumptions C01_known_file_narrowed.
+
+(* against the parse result of http://u:@h/ the inputs file:///C:/a/../b and file://h.x/a/./b?q#f are outside
+   Known_C01; against the parse result of file://h/tmp/x they, "x" and "/x" are in class 1 (file base: not proved),
+   "#f" and "" are outside *)
+Theorem C01_known_file_narrowed_base :
+  match parse_url true (host_parse id_idna) host_parse_opaque host_display None None nar_1,
+        parse_url true (host_parse id_idna) host_parse_opaque host_display None None file_base_text with
+  | POk bh, POk bf => known_c01 (Some bh) fnar_1 = 0 /\ known_c01 (Some bh) fnar_3 = 0
+                      /\ known_c01 (Some bf) fnar_1 = 1 /\ known_c01 (Some bf) [120] = 1 /\ known_c01 (Some bf) [47; 120] = 1
+                      /\ known_c01 (Some bf) [35; 102] = 0 /\ known_c01 (Some bf) [] = 0
+  | _, _ => False
+  end.
+Proof. exact known_file_narrowed_base. Qed.
+Print Assumptions C01_known_file_narrowed_base.
+
+(* non-vacuity of C01_statement_all2_model on inputs that only the narrowed predicate admits: known_c01 = 0, both sides
+   succeed with the same ten API strings *)
+Example C01_statement_all2_nonvacuous :
+  let idna := ex_idna_clean in
+  let P i := parse_url true (host_parse idna) host_parse_opaque host_display None None i in
+  let S i := spec_basic_url_parse (spec_host_parser idna) i None in
+  let ok i := known_c01 None i = 0 /\ known_c01_v1 None i = 1 /\ in_proved_class3 None i = false /\ in_proved_class4 None i = true
+              /\ match P i, S i with
+                 | POk u, BDone su => api_of_model true u = Some (spec_api_list spec_host_serializer su)
+                 | _, _ => False end in
+  ok fnar_1 /\ ok fnar_2 /\ ok fnar_3 /\ ok fnar_4 /\ ok fnar_5.
+Proof. vm_compute. repeat split. Qed.
+
+(* ====================================================================================== *)
+(* First file-BASE arm: "file:" + two slashes against ANY base (task c01file3)              *)
+(* ====================================================================================== *)
+From RU Require Import Proofs.C01_EqFileTwo.
+
+(* the Standard's side alone: "file:" followed by two '/' '\' (any mix): file state -> file slash state -> file host
+   state, for ANY base (a file URL included: the base is read only in the other arms of the two states) - the
+   outcome is `sfile` of the text, as without a base *)
+Theorem C01_file_two_slashes_spec : forall shp base input c1 c2 T,
+  spec_scheme (spec_clean input) = Some (str_file, c1 :: c2 :: T) -> is_sl c1 = true -> is_sl c2 = true ->
+  match sfile shp u_file0 (c1 :: c2 :: T) with
+  | Some su => spec_basic_url_parse shp input base = BDone su
+  | None => exists uf, spec_basic_url_parse shp input base = BFailure uf
+  end.
+Proof. exact spec_file_two. Qed.
+Print Assumptions C01_file_two_slashes_spec.
+
+(* the model's side alone: behind two separators parse_file takes the file-host arm before it looks at the base *)
+Theorem C01_file_two_slashes_model : forall dbg hp hd bf l c1 c2 T,
+  ntnl l = c1 :: c2 :: T -> is_sl c1 = true -> is_sl c2 = true ->
+  parse_file dbg hp hd None CUrlParser STFile bf l = parse_file dbg hp hd None CUrlParser STFile None l.
+Proof. exact parse_file_two. Qed.
+Print Assumptions C01_file_two_slashes_model.
+
+(* the class: every scalar-value input "file:" + two separators + ... inside in_class_file, against ANY base pair
+   with the same scheme on the two sides (no base, a non-file base, a FILE base): agree_good, and a successful pair
+   of results is a full_base pair.  Beside C01_statement_all2: against a file base these inputs are still in class 1
+   of Known_C01. *)
+Theorem C01_eq_file_two_slashes : forall dbg hp hpo hd shp shs base sbase input,
+  usv_list input -> in_class_file input = true -> two_sl_file input = true ->
+  base_sch_rel base sbase ->
+  host_agree_file hp hd shp shs (class_host_text_f input) ->
+  agree_good dbg shs (parse_url dbg hp hpo hd None base input) (spec_basic_url_parse shp input sbase)
+  /\ (forall su u, spec_basic_url_parse shp input sbase = BDone su -> parse_url dbg hp hpo hd None base input = POk u ->
+        full_base dbg shs u su).
+Proof. exact class_file_two_good. Qed.
+Check C01_eq_file_two_slashes : forall dbg hp hpo hd shp shs base sbase input,
+  usv_list input -> in_class_file input = true ->
+  match spec_scheme (spec_clean input) with
+  | Some (sch, c1 :: c2 :: _) => list_eqb sch str_file && is_sl c1 && is_sl c2
+  | _ => false
+  end = true ->
+  match base, sbase with None, None => True | Some b, Some sb => b_scheme b = su_scheme sb | _, _ => False end ->
+  host_agree_file hp hd shp shs (class_host_text_f input) ->
+  agree_good dbg shs (parse_url dbg hp hpo hd None base input) (spec_basic_url_parse shp input sbase)
+  /\ (forall su u, spec_basic_url_parse shp input sbase = BDone su -> parse_url dbg hp hpo hd None base input = POk u ->
+        full_base dbg shs u su).
+Print Assumptions C01_eq_file_two_slashes.
+
+(* with the host model plugged in: relative to IdnaOK only; bases: None or any full_base pair (file bases included) *)
+Theorem C01_statement_file_two_slashes_model : forall dbg idna, IdnaOK idna -> forall input base sbase,
+  usv_list input -> full_rel dbg spec_host_serializer base sbase ->
+  in_class_file input = true -> two_sl_file input = true ->
+  agree_good dbg spec_host_serializer
+    (parse_url dbg (host_parse idna) host_parse_opaque host_display None base input)
+    (spec_basic_url_parse (spec_host_parser idna) input sbase)
+  /\ (forall su u, spec_basic_url_parse (spec_host_parser idna) input sbase = BDone su ->
+        parse_url dbg (host_parse idna) host_parse_opaque host_display None base input = POk u ->
+        full_base dbg spec_host_serializer u su).
+Proof. exact class_file_two_model. Qed.
+Print Assumptions C01_statement_file_two_slashes_model.
+
+(* non-vacuity: against the parse result of file://h/tmp/x (a file base), file://h2.x/a/../b?q and fIle:\\/y are in
+   the class and in class 1 of Known_C01; both sides give file://h2.x/b?q and file:///y *)
+Example C01_eq_file_two_slashes_nonvacuous :
+  let idna := id_idna in
+  let P base i := parse_url true (host_parse idna) host_parse_opaque host_display None base i in
+  let S sbase i := spec_basic_url_parse (spec_host_parser idna) i sbase in
+  let i1 := [102;105;108;101;58;47;47;104;50;46;120;47;97;47;46;46;47;98;63;113] in
+  let i2 := [102;73;108;101;58;92;92;47;121] in
+  match P None file_base_text, S None file_base_text with
+  | POk b, BDone sb =>
+      su_scheme sb = str_file
+      /\ in_class_file i1 = true /\ two_sl_file i1 = true /\ in_class_file i2 = true /\ two_sl_file i2 = true
+      /\ known_c01 (Some b) i1 = 1 /\ known_c01 (Some b) i2 = 1
+      /\ match P (Some b) i1, S (Some sb) i1 with
+         | POk u, BDone su => q_href u = [102;105;108;101;58;47;47;104;50;46;120;47;98;63;113]
+                              /\ api_of_model true u = Some (spec_api_list spec_host_serializer su)
+         | _, _ => False end
+      /\ match P (Some b) i2, S (Some sb) i2 with
+         | POk u, BDone su => q_href u = [102;105;108;101;58;47;47;47;121]
+                              /\ api_of_model true u = Some (spec_api_list spec_host_serializer su)
+         | _, _ => False end
+  | _, _ => False
+  end.
+Proof. exact class_file_two_nonvacuous. Qed.
+
+(* ---- scheme-less references "//T" (two '/' '\', any mix) against a FILE base ---- *)
+From RU Require Import Proofs.C01_EqFileRel2.
+
+(* the Standard's side alone: no scheme state -> file state (the base is a file URL without opaque path) -> file slash
+   state -> file host state: `sfile` of the reference, the base is not consulted any further *)
+Theorem C01_file_rel_two_slashes_spec : forall shp sb input c1 c2 T,
+  spec_clean input = c1 :: c2 :: T -> is_sl c1 = true -> is_sl c2 = true ->
+  has_opaque_path sb = false -> list_eqb (su_scheme sb) str_file = true ->
+  match sfile shp u_file0 (c1 :: c2 :: T) with
+  | Some su => spec_basic_url_parse shp input (Some sb) = BDone su
+  | None => exists uf, spec_basic_url_parse shp input (Some sb) = BFailure uf
+  end.
+Proof. exact spec_file_rel_two. Qed.
+Print Assumptions C01_file_rel_two_slashes_spec.
+
+(* the class in_class_file_rel2: `related` base whose Standard record is a file URL without opaque path; cleaned
+   reference starts with two separators and is inside file_class_ok.  agree_good + the result pair is a full_base
+   pair.  Beside C01_statement_all2 (these references are in class 1 of Known_C01). *)
+Theorem C01_eq_file_rel_two_slashes : forall dbg hp hpo hd shp shs b sb input,
+  usv_list input -> related dbg shs b sb -> in_class_file_rel2 sb input = true ->
+  host_agree_file hp hd shp shs (file_host_of (spec_clean input)) ->
+  agree_good dbg shs (parse_url dbg hp hpo hd None (Some b) input) (spec_basic_url_parse shp input (Some sb))
+  /\ (forall su u, spec_basic_url_parse shp input (Some sb) = BDone su -> parse_url dbg hp hpo hd None (Some b) input = POk u ->
+        full_base dbg shs u su).
+Proof. exact class_file_rel2. Qed.
+Check C01_eq_file_rel_two_slashes : forall dbg hp hpo hd shp shs b sb input,
+  usv_list input -> related dbg shs b sb ->
+  negb (has_opaque_path sb) && list_eqb (su_scheme sb) str_file
+  && match spec_clean input with
+     | c1 :: c2 :: T => is_sl c1 && is_sl c2 && file_class_ok (c1 :: c2 :: T)
+     | _ => false
+     end = true ->
+  host_agree_file hp hd shp shs (file_host_of (spec_clean input)) ->
+  agree_good dbg shs (parse_url dbg hp hpo hd None (Some b) input) (spec_basic_url_parse shp input (Some sb))
+  /\ (forall su u, spec_basic_url_parse shp input (Some sb) = BDone su -> parse_url dbg hp hpo hd None (Some b) input = POk u ->
+        full_base dbg shs u su).
+Print Assumptions C01_eq_file_rel_two_slashes.
+
+Theorem C01_statement_file_rel_two_slashes_model : forall dbg idna, IdnaOK idna -> forall input b sb,
+  usv_list input -> related dbg spec_host_serializer b sb -> in_class_file_rel2 sb input = true ->
+  agree_good dbg spec_host_serializer
+    (parse_url dbg (host_parse idna) host_parse_opaque host_display None (Some b) input)
+    (spec_basic_url_parse (spec_host_parser idna) input (Some sb))
+  /\ (forall su u, spec_basic_url_parse (spec_host_parser idna) input (Some sb) = BDone su ->
+        parse_url dbg (host_parse idna) host_parse_opaque host_display None (Some b) input = POk u ->
+        full_base dbg spec_host_serializer u su).
+Proof. exact class_file_rel2_model. Qed.
+Print Assumptions C01_statement_file_rel_two_slashes_model.
+
+(* non-vacuity: against the parse result of file://h/tmp/x the references //h2.x/a/../b?q and \\/y are in the class
+   (and in class 1 of Known_C01); both sides give file://h2.x/b?q and file:///y *)
+Example C01_eq_file_rel_two_slashes_nonvacuous :
+  let idna := id_idna in
+  let P base i := parse_url true (host_parse idna) host_parse_opaque host_display None base i in
+  let S sbase i := spec_basic_url_parse (spec_host_parser idna) i sbase in
+  let i1 := [47;47;104;50;46;120;47;97;47;46;46;47;98;63;113] in
+  let i2 := [92;92;47;121] in
+  match P None file_base_text, S None file_base_text with
+  | POk b, BDone sb =>
+      in_class_file_rel2 sb i1 = true /\ in_class_file_rel2 sb i2 = true
+      /\ known_c01 (Some b) i1 = 1 /\ known_c01 (Some b) i2 = 1
+      /\ match P (Some b) i1, S (Some sb) i1 with
+         | POk u, BDone su => q_href u = [102;105;108;101;58;47;47;104;50;46;120;47;98;63;113]
+                              /\ api_of_model true u = Some (spec_api_list spec_host_serializer su)
+         | _, _ => False end
+      /\ match P (Some b) i2, S (Some sb) i2 with
+         | POk u, BDone su => q_href u = [102;105;108;101;58;47;47;47;121]
+                              /\ api_of_model true u = Some (spec_api_list spec_host_serializer su)
+         | _, _ => False end
+  | _, _ => False
+  end.
+Proof. exact class_file_rel2_nonvacuous. Qed.
